@@ -84,3 +84,45 @@ Proof.
   split; [|vm_compute; reflexivity].
   split; [reflexivity|]. split; [apply wf_bytesb_spec; reflexivity|]. split; reflexivity.
 Qed.
+
+(* ---- the model is the code: generated-model equivalence (tools/go2coq, Gen/Code.v, C19/GenEquiv.v) ------
+   GC.f is the Gallina definition that tools/go2coq generates from the Go source of f (uuid.go) on every run.
+   Each theorem says that the generated definition and the hand-written model function of Model.v are the
+   same function.  (ParseUUID, String, Time, getTimestamp, Node, RandomUUID are not translated: they stay
+   tied to the model by the correspondence run only.) *)
+From GocqlV Require Import Gen.Code.
+From GocqlV Require C19.GenEquiv.   (* not imported: its helper lemmas stay qualified *)
+
+Theorem C19_generated_version_is_model : forall u, GC.UUID_Version u = version u.
+Proof. exact C19.GenEquiv.gen_version_eq. Qed.
+Print Assumptions C19_generated_version_is_model.
+
+Theorem C19_generated_variant_is_model : forall u, GC.UUID_Variant u = variant u.
+Proof. exact C19.GenEquiv.gen_variant_eq. Qed.
+Print Assumptions C19_generated_variant_is_model.
+
+Theorem C19_generated_clock_is_model : forall u, GC.UUID_Clock u = clock u.
+Proof. exact C19.GenEquiv.gen_clock_eq. Qed.
+Print Assumptions C19_generated_clock_is_model.
+
+(* Timestamp: every array of bytes (the int64 additions of the code cannot wrap) *)
+Theorem C19_generated_timestamp_is_model : forall u, wf_bytes u -> GC.UUID_Timestamp u = timestamp u.
+Proof. exact C19.GenEquiv.gen_timestamp_eq. Qed.
+Print Assumptions C19_generated_timestamp_is_model.
+
+(* TimeUUIDWith: every int64 time, every uint32 clock, node slices of every length *)
+Theorem C19_generated_time_uuid_with_is_model : forall t c node,
+  GC.TimeUUIDWith t c node = time_uuid_with t c node.
+Proof. exact C19.GenEquiv.gen_time_uuid_with_eq. Qed.
+Print Assumptions C19_generated_time_uuid_with_is_model.
+
+(* ... hence C19_time_uuid_fields holds of the functions go2coq reads off uuid.go today. *)
+Theorem C19_generated_time_uuid_fields : forall t c n, 0 <= t < 2 ^ 60 -> wf_bytes n ->
+  GC.UUID_Timestamp (GC.TimeUUIDWith t c n) = t /\ GC.UUID_Version (GC.TimeUUIDWith t c n) = 1
+  /\ GC.UUID_Variant (GC.TimeUUIDWith t c n) = K.VariantIETF /\ GC.UUID_Clock (GC.TimeUUIDWith t c n) = c mod 2 ^ 14.
+Proof.
+  intros t c n Ht Hn. rewrite C19.GenEquiv.gen_time_uuid_with_eq, C19.GenEquiv.gen_version_eq, C19.GenEquiv.gen_variant_eq, C19.GenEquiv.gen_clock_eq.
+  rewrite C19.GenEquiv.gen_timestamp_eq by (apply (wf_time_uuid_with t c n Hn)).
+  exact (C19_time_uuid_fields t c n Ht).
+Qed.
+Print Assumptions C19_generated_time_uuid_fields.
